@@ -374,3 +374,89 @@ func callsIn(fn *ssa.Function, pred func(callee *ssa.Function, c ssa.CallInstruc
 	}
 	return out
 }
+
+// ---- interprocedural guard context ----
+//
+// A block of an unexported, non-escaping function is only reached through its static call sites, so the
+// facts holding there are blockFacts(b) AND (OR over call sites of the facts holding at the call site).
+// This keeps guard-dominance rules stable when a guarded tail of a function is extracted into a helper.
+
+type callSiteIndex struct {
+	sites   map[*ssa.Function][]ssa.CallInstruction
+	escapes map[*ssa.Function]bool
+}
+
+func (p *Program) callIndex() *callSiteIndex {
+	if p.callIdx != nil {
+		return p.callIdx
+	}
+	ci := &callSiteIndex{sites: map[*ssa.Function][]ssa.CallInstruction{}, escapes: map[*ssa.Function]bool{}}
+	for _, fn := range p.SrcFuncs() {
+		for _, b := range fn.Blocks {
+			for _, ins := range b.Instrs {
+				c, isCall := ins.(ssa.CallInstruction)
+				for i, op := range ins.Operands(nil) {
+					if op == nil || *op == nil {
+						continue
+					}
+					g, ok := (*op).(*ssa.Function)
+					if !ok {
+						continue
+					}
+					if isCall && i == 0 && c.Common().StaticCallee() == g {
+						if _, isPlain := ins.(*ssa.Call); isPlain {
+							ci.sites[g] = append(ci.sites[g], c)
+						} else {
+							ci.escapes[g] = true // deferred / go: executed elsewhere
+						}
+						continue
+					}
+					ci.escapes[g] = true // used as a value
+				}
+			}
+		}
+	}
+	p.callIdx = ci
+	return ci
+}
+
+func exportedAPI(fn *ssa.Function) bool {
+	if fn.Parent() != nil {
+		return false
+	}
+	if o := fn.Object(); o != nil && o.Exported() {
+		// exported method of an unexported type is still package-internal
+		if sig := fn.Signature; sig.Recv() != nil {
+			if n := namedOf(sig.Recv().Type()); n != nil && !n.Obj().Exported() {
+				return false
+			}
+		}
+		return true
+	}
+	return false
+}
+
+// ctxFacts: facts holding at entry of b, including what every caller of b's function establishes.
+func (p *Program) ctxFacts(b *ssa.BasicBlock) dnf { return p.ctxFactsRec(b, 0, map[*ssa.Function]bool{}) }
+
+func (p *Program) ctxFactsRec(b *ssa.BasicBlock, depth int, onPath map[*ssa.Function]bool) dnf {
+	f := blockFacts(b)
+	fn := b.Parent()
+	if depth >= 3 || onPath[fn] || fn.Parent() != nil || exportedAPI(fn) {
+		return f
+	}
+	ci := p.callIndex()
+	if ci.escapes[fn] || len(ci.sites[fn]) == 0 {
+		return f
+	}
+	onPath[fn] = true
+	defer delete(onPath, fn)
+	var ctx dnf
+	for _, s := range ci.sites[fn] {
+		ctx = dnfOr(ctx, p.ctxFactsRec(s.Block(), depth+1, onPath))
+	}
+	if len(ctx) == 0 {
+		return f
+	}
+	return dnfAnd(f, ctx)
+}
